@@ -88,3 +88,67 @@ Proof.
   vm_compute. reflexivity.
 Qed.
 Print Assumptions C02_hypotheses_satisfiable.
+
+(* ---------------------------------------------------------------------------------------------------------
+   The interface hypothesis DISCHARGED by composition (Model/MemoryKey.v, Proofs/MemoryKey*.v): the concrete key
+       key f args kwargs = md5 (stream (filter_args f args kwargs))
+   is built from model M2 (Model/FilterArgs.v) and model M3 (Model/HashEnc.v) through the explicit value bridge
+   vmap / nmap, and for signatures in b-c07's fragment [sig_in_fragment] (where filter_args IS Python's binding:
+   C07_agree_partial_sig) key_sound is a THEOREM (Proofs/MemoryKeySound.v: key_sound_fragment, via
+   C07 agree_partial + ignore_removes and C08's decoding of the stream to the normal form of the tree).
+   Remaining hypotheses: md5 has no collision; the bridge is faithful (names spelled differently, abstract values
+   denote Python values that differ by more than dict / set iteration order and lie in C08's universe); the
+   canonical dicts that occur are [good] and [fits] (C08's injective sub-universe); f_respects; uniform.
+   The boundary of the fragment stays where the refutations put it: F1 / F2 (C02_sound_refuted_F1/F2, outside
+   sig_in_fragment), F12 / F13 (C08: outside good / the digest masquerade), F43. *)
+From Coq Require Import ZArith.
+Require JV.Model.FilterArgs JV.Model.HashEnc JV.Proofs.HashEncDefs JV.Proofs.HashEncInj.
+Require Import JV.Model.MemoryKey JV.Proofs.MemoryKey JV.Proofs.MemoryKeySound.
+
+Theorem C02_sound_fragment :
+  forall (md5 : list Z -> list Z) (vmap : Z -> HE.value) (nmap : Z -> list Z)
+         (uvalue usrc : Type) (usrc_eqb : usrc -> usrc -> bool) ucode upath unamed
+         (uf : usrc -> FA.binding -> uvalue) (s : FA.sig) (ign : list FA.key),
+  (forall a b, usrc_eqb a b = true <-> a = b) ->
+  (forall a b, md5 a = md5 b -> a = b) ->
+  (forall a b, nmap a = nmap b -> a = b) ->
+  (forall a b, JV.Proofs.HashEncDefs.veq (vmap a) (vmap b) -> a = b) ->
+  (forall a, JV.Proofs.HashEncDefs.good (vmap a)) ->
+  (forall c b, FA.wf_callb c = true -> FA.py_bind s c = Some b ->
+     JV.Proofs.HashEncDefs.good (dict_tree vmap nmap (restrict_binding s ign b)) /\
+     JV.Proofs.HashEncInj.fits md5 (dict_tree vmap nmap (restrict_binding s ign b))) ->
+  FA.wf_sig s -> FA.sig_in_fragment s = true -> ign_ok s ign ->
+  let C := key_cfg md5 vmap nmap usrc_eqb ucode upath unamed uf s ign in
+  f_respects C -> uniform C ->
+  forall h, Forall (call_sound C) (run C init h) /\ Forall (get_sound C) (run C init h).
+Proof.
+  intros md5 vmap nmap uvalue usrc usrc_eqb ucode upath unamed uf s ign Hs Hmd5 Hn Hv Hg Ht Hwf Hfr Hok C FR UN h.
+  apply (sound_uniform C odigest_eqb_spec Hs); auto.
+  exact (key_sound_fragment md5 vmap nmap usrc_eqb ucode upath unamed uf Hmd5 Hn Hv Hg s ign Ht Hwf Hfr Hok).
+Qed.
+Print Assumptions C02_sound_fragment.
+
+(* non-vacuity: every hypothesis of C02_sound_fragment holds together for a function without parameters, integer
+   argument values (vmap = VInt), names spelled by their number, md5 = identity *)
+Example C02_fragment_hypotheses_satisfiable :
+  let md5 := fun b : list Z => b in
+  let vmap := HE.VInt in
+  let nmap := fun n : Z => [n] in
+  let s : FA.sig := [] in
+  (forall a b, md5 a = md5 b -> a = b) /\ (forall a b, nmap a = nmap b -> a = b) /\
+  (forall a b, JV.Proofs.HashEncDefs.veq (vmap a) (vmap b) -> a = b) /\
+  (forall a, JV.Proofs.HashEncDefs.good (vmap a)) /\
+  (forall c b, FA.wf_callb c = true -> FA.py_bind s c = Some b ->
+     JV.Proofs.HashEncDefs.good (dict_tree vmap nmap (restrict_binding s [] b)) /\
+     JV.Proofs.HashEncInj.fits md5 (dict_tree vmap nmap (restrict_binding s [] b))) /\
+  FA.wf_sig s /\ FA.sig_in_fragment s = true /\ ign_ok s [] /\
+  key md5 vmap nmap s [] (FA.mkCall [] []) <> None.
+Proof.
+  cbn zeta. split; [auto|]. split; [intros a b H; congruence|]. split; [exact vint_inj|]. split; [intros a; exact I|].
+  split.
+  - intros c b _ Hb. unfold FA.py_bind in Hb. cbn in Hb. destruct (FA.cpos c); [|destruct (is_nil _); discriminate].
+    destruct (is_nil _); [|discriminate]. injection Hb as <-. apply empty_dict_ok.
+  - split; [reflexivity|]. split; [reflexivity|]. split; [split; [constructor | intros c b _ k []]|].
+    vm_compute. discriminate.
+Qed.
+Print Assumptions C02_fragment_hypotheses_satisfiable.
